@@ -27,6 +27,11 @@ Inductive handler :=
 | HUntranslated (why : string).
 Record command := mkCmd { c_name : string; c_handler : handler }.
 
+(* a handler that makes exactly one call <ipmi>.<method>(<args>): each argument an integer constant
+   or int(args[idx], base) (base 10 = int(args[idx])) *)
+Inductive argspec := AConst (z : Z) | AInt (idx : nat) (base : N).
+Inductive callspec := CSingle (method : string) (args : list argspec) | CMulti (why : string).
+
 (* a public callable of pyipmi.Ipmi *)
 Record api_method := mkApi { a_name : string; a_min : nat; a_max : option nat;
                              a_kw : list string; a_anykw : bool }.
